@@ -39,7 +39,9 @@ pub struct QState<'a> {
     pub failed: bool,
     pub inter: &'a mut BTreeSet<u64>,
     /// a nested macro requested by the visit that just returned (kind, n, mask)
-    pub want_nested: Option<(u8, u32, u32)>,
+    pub want_nested: Option<(u8, u32, u32, u32)>,
+    /// (outer visit index, visits of the nested macro run there): yield points for the C10 family
+    pub nested_counts: Vec<(usize, usize)>,
     pub nested: Option<NestedRun>,
     pub nested_visits: Vec<VisitRec>,
 }
@@ -90,12 +92,11 @@ impl<'a> QState<'a> {
     }
 
     fn nested_req<W: WorldSpec>(&mut self) -> Option<NestedReq> {
-        let (kind, n, mask) = self.want_nested.take()?;
+        let (kind, n, mask, pk) = self.want_nested.take()?;
         let oi = self.site.other?;
         if self.failed || rt::has_violation() {
             return None;
         }
-        let panic_in_nested = (kind / 3) % 2 == 1;
         let kind = kind % 3;
         let live = self.m.live_of(oi);
         let start_live: BTreeSet<Bits> = live.iter().copied().collect();
@@ -108,7 +109,7 @@ impl<'a> QState<'a> {
             None
         };
         // F1 inside the nested macro: the panic unwinds through two in-flight queries
-        let panic_at = if panic_in_nested { Some((n as usize / 11) % (live.len() + 1)) } else { None };
+        let panic_at = if pk > 0 { Some(pk as usize - 1) } else { None };
         self.nested = Some(NestedRun { kind, oi, n, mask, start_live, seen: BTreeSet::new(), pending: None, k: 0, broke_at: None, key, panic_at });
         self.stats.inc(match kind {
             0 => "inner_nested_ecs_iter",
@@ -165,6 +166,7 @@ impl<'a> QState<'a> {
         if run.panic_at == Some(k) {
             // the destroy decided by this visit never happens; those of completed visits stand
             self.nested = None;
+            self.nested_counts.push((self.k.saturating_sub(1), k + 1));
             self.stats.inc("F1_closure_panic_in_nested_macro");
             rt::with(|r| r.fired = Some(Injected::Closure));
             std::panic::panic_any(Injected::Closure);
@@ -210,6 +212,7 @@ impl<'a> QState<'a> {
             self.m.remove(b, wrapping);
             self.stats.inc("inner_nested_destroyed");
         }
+        self.nested_counts.push((self.k.saturating_sub(1), run.k));
         if self.failed || rt::has_violation() {
             return;
         }
@@ -402,10 +405,10 @@ impl<'a> QState<'a> {
                     self.stats.inc("inner_nested_access");
                 }
             }
-            Inner::OtherQuery { kind, n, mask } => {
+            Inner::OtherQuery { kind, n, mask, pk } => {
                 // runs after this visit returns to the site body (the `other` borrow must end first)
                 if v.other.is_some() && self.site.other.is_some() {
-                    self.want_nested = Some((*kind, *n, *mask));
+                    self.want_nested = Some((*kind, *n, *mask, *pk));
                 }
             }
             Inner::Peek { h } => {
@@ -743,7 +746,7 @@ impl<W: WorldSpec> Engine<W> {
         // armed when no drop can happen in harness code running inside the closure.
         let gecs_drops_only = mac == QMacro::IterDestroy && !plan.iter().any(|a| matches!(a.inner, Inner::OtherDestroy { .. } | Inner::OtherQuery { .. }));
         rt::arm(None, if gecs_drops_only { dp } else { None }, None, false);
-        let (res, visits, created_other, pending, broke_at, calls_after_break, k, failed, nested_visits) = {
+        let (res, visits, created_other, pending, broke_at, calls_after_break, k, failed, nested_visits, nested_counts) = {
             let Engine { ws, ms, stats, interleavings, .. } = self;
             let w = ws[wid].as_mut().unwrap();
             let mut qs = QState {
@@ -764,6 +767,7 @@ impl<W: WorldSpec> Engine<W> {
                 failed: false,
                 inter: interleavings,
                 want_nested: None,
+                nested_counts: Vec::new(),
                 nested: None,
                 nested_visits: Vec::new(),
             };
@@ -779,7 +783,7 @@ impl<W: WorldSpec> Engine<W> {
                 qs.finalize_pending();
             }
             // a nested macro cut short by unwinding: the destroy of its last visit never happened
-            (res, qs.visits, qs.created_other, qs.pending_destroy, qs.broke_at, qs.calls_after_break, qs.k, qs.failed, qs.nested_visits)
+            (res, qs.visits, qs.created_other, qs.pending_destroy, qs.broke_at, qs.calls_after_break, qs.k, qs.failed, qs.nested_visits, qs.nested_counts)
         };
         let drop_calls = rt::with(|r| r.drop_calls);
         rt::disarm();
@@ -789,6 +793,11 @@ impl<W: WorldSpec> Engine<W> {
         self.adopt_forks(wid);
         if gecs_drops_only && drop_calls > 0 {
             self.yields.push((self.step, 5, drop_calls));
+        }
+        for (ok, cnt) in &nested_counts {
+            if *cnt > 0 && *ok < 4096 {
+                self.yields.push((self.step, 8, ((*ok as u32) << 8) | (*cnt).min(255) as u32));
+            }
         }
         for b in created_other {
             self.add_ind(b, wid);
